@@ -515,6 +515,8 @@ func chainMain(args []string) error {
 				if imp != nil {
 					ri := imp.Deliver(bz)
 					if os.Getenv("HV_DEBUG") != "" {
+						fmt.Fprintln(os.Stderr, "DEBUGGAS", n.Header.Height, kind, r.GasUsed, ri.GasUsed, r.GasWanted, ri.GasWanted,
+							n.App.FeeMarketKeeper.GetBaseFee(n.Ctx()), imp.App.FeeMarketKeeper.GetBaseFee(imp.Ctx()))
 						for _, pair := range [][]abci.Event{r.Events, ri.Events} {
 							for _, ev := range pair {
 								if ev.Type == "withdraw_rewards" || ev.Type == "coin_received" {
@@ -525,7 +527,8 @@ func chainMain(args []string) error {
 						}
 					}
 					impres = append(impres, M{"k": kind, "code": int(ri.Code), "codespace": ri.Codespace, "data": digest(ri.Data),
-						"gen_code": int(r.Code), "gen_codespace": r.Codespace, "gen_data": digest(r.Data)})
+						"gen_code": int(r.Code), "gen_codespace": r.Codespace, "gen_data": digest(r.Data),
+						"gas": int(ri.GasUsed), "gen_gas": int(r.GasUsed), "gasWanted": int(r.GasWanted)})
 				}
 				if r.Code != 0 {
 					l := r.Log
